@@ -150,7 +150,7 @@ PROPS["C04"] = dict(
     tests=[REGRESS(), T("TestBreakerConcurrent", (8, 500), (16, 8000))],
     replay_reps=200,
     require_classes=["raced-open=true", "raced-trials=true"],
-    rule="rapid-generated breaker scenarios on a frozen virtual clock: count/ratio thresholds with optional success thresholds; phase A: 2..16 (thorough 32) executions race against the closed breaker while some of their failures trip it (any execution submitted after OnOpen was observed must be refused); phase A2: executions (bare / under retry / under an always-firing timeout / under a fallback, sync and async) against the open breaker; phase B: the clock jumps past the delay and up to 2*capacity+2 trials are submitted one by one (model in lock-step) or all at once (racing for permits), ending by result, error, timeout, cancellation or a rejection further in; parked trials are completed in a generated order with the reference breaker in lock-step; finally the free trial permits are probed; non-trivial = the breaker opened while at least 2 executions were in flight, or more than capacity executions raced for trial permits; distinct = the scenario",
+    rule="rapid-generated breaker scenarios on a frozen virtual clock: count / ratio / count-in-period / rate-in-period thresholds with optional success thresholds; phase A: 2..16 (thorough 32) executions race against the closed breaker while some of their failures trip it (any execution submitted after OnOpen was observed must be refused; in half of the scenarios the OnOpen listener is slow and 4 more executions are submitted while it is still running); phase A2: executions (bare / under retry / under an always-firing timeout / under a fallback, sync and async) against the open breaker; phase B: the clock jumps past the delay and up to 2*capacity+2 trials are submitted one by one (model in lock-step) or all at once (racing for permits), ending by result, error, timeout, cancellation or a rejection further in; parked trials are completed in a generated order with the reference breaker in lock-step; finally the free trial permits are probed; non-trivial = the breaker opened while at least 2 executions were in flight, or more than capacity executions raced for trial permits; distinct = the scenario",
     assumptions=["virtual clock injected through circuitbreaker.VerifWithClock (build tag verif); phase B starts only when nothing admitted earlier is in flight, as the property's quantifier says",
                  "the OnOpen listener runs under the breaker's lock, so a flag it sets is ordered before every later admission decision"],
 )
